@@ -84,6 +84,28 @@ pub fn c01_nq(kinds: &[u8], turn: u8, optional: bool) {
     assert!(!noisy || m >= 1, "C01.4 quiescence generator misses a capture or promotion");
 }
 
+/// C01 on reachable positions: after playing any emitted legal move with the real `make`, the real generator
+/// emits exactly the pseudo-legal moves of the successor the rules define (rights flags, e.p. square and
+/// placement as left behind by `make` feed the next generation - e.g. a castling right that `make` failed
+/// to clear yields a castling move without a rook here).
+pub fn c01_gen_after(kinds: &[u8], turn: u8, optional: bool) {
+    let (pos, mut bb, q, mv) = observed(kinds, turn, optional);
+    sym::assume(legal(&pos, q.0, q.1, q.2));
+    bb.make(mv);
+    let n = apply(&pos, q.0, q.1, q.2);
+    #[cfg(not(kani))]
+    sym::note("successor_fen_by_rules", native::to_fen(&n));
+    let q2 = any_key();
+    let (m2, _) = observe(&bb, q2, false);
+    let pl2 = pseudo_legal(&n, q2.0, q2.1, q2.2);
+    cov!(pl2, "second query is pseudo-legal in the successor");
+    cov!(count(kinds, P) < 2 || (pl2 && is_ep_capture(&n, q2.0, q2.1)), "second query is an en-passant capture made possible by the first move");
+    cov!(!contains(kinds, R) || (pl2 && is_castle(&n, q2.0, q2.1)), "second query is a castling move");
+    assert!(m2 <= 1, "C01 generator emitted a move twice in a position reached by make");
+    assert!(m2 == 0 || pl2, "C01 generator emitted a move the rules do not allow in a position reached by make");
+    assert!(!pl2 || m2 >= 1, "C01 generator misses a move the rules allow in a position reached by make");
+}
+
 // ---- C02 -------------------------------------------------------------------------------------------
 
 /// C02: make(legal move) yields the successor the rules define, field by field.
@@ -143,6 +165,8 @@ pub fn c03_line2(kinds: &[u8], turn: u8, optional: bool) {
     let (_pos, mut bb, _q, mv) = observed(kinds, turn, optional);
     let s0 = snap(&bb);
     bb.make(mv);
+    // the property's quantifier stops at clock 4095 (the packed move reserves 12 bits for it)
+    sym::assume(bb.halfmove_clock < 4096);
     let s1 = snap(&bb);
     let q2 = any_key();
     let (m2, mv2) = observe(&bb, q2, false);
